@@ -21,7 +21,7 @@ func init() { register(c16{}) }
 func (c16) ID() string    { return "C16" }
 func (c16) Level() string { return "exploration" }
 func (c16) Rule() string {
-	return "ALL 256 first bytes x bodies produced by the reference encoder that are valid for the type in the upper nibble and consistent with the flag bits (PUBLISH: packet identifier present iff the QoS bits are 01 or 10; for QoS bits 11 bodies with and without identifier), including remaining length 0 where the type allows it; 8 (quick) / 20000 (thorough) bodies per first byte. Oracle: an independent nibble->Go type table; Publish accessors against bit arithmetic on the first byte; for types 1..15 the first byte written by WriteTo equals the one read; type 0 yields *Undefined whose Data() is the body. Acceptance is demanded where the flag nibble is legal for the type; for other nibbles a returned packet must still have the right type and keep the flags. distinct = (first byte, body class); non-trivial = all"
+	return "ALL 256 first bytes x bodies produced by the reference encoder that are valid for the type in the upper nibble and consistent with the flag bits (PUBLISH: packet identifier present iff the QoS bits are 01 or 10; for QoS bits 11 bodies with and without identifier), including remaining length 0 where the type allows it; 8 (quick) / 20000 (thorough) bodies per first byte. Oracle: an independent nibble->Go type table; Publish accessors against bit arithmetic on the first byte; for types 1..15 the first byte written by WriteTo equals the one read; type 0 yields *Undefined whose Data() is the body, and still is after the other frames of the case were read. Acceptance is demanded where the flag nibble is legal for the type; for other nibbles a returned packet must still have the right type and keep the flags. distinct = (first byte, body class); non-trivial = all"
 }
 func (c16) Assumptions() []string {
 	return []string{"a decoder may reject flag nibbles MQTT reserves; if it accepts them it must preserve them"}
@@ -54,7 +54,27 @@ func (c16) Run(c *run.Ctx, phase, idx int) {
 		first byte
 	}
 	var keptList []keptPkt
+	// type 0: the Undefined values are kept with a copy of their frame body;
+	// Data() must still be that body after the other frames were read (a
+	// value that keeps a recycled read buffer shows here; round 12, V5-b)
+	type keptUndef struct {
+		u    *mq.Undefined
+		body []byte
+	}
+	var keptUndefs []keptUndef
 	defer func() {
+		for _, ku := range keptUndefs {
+			var d []byte
+			if pan := mon.Guard(func() { d = ku.u.Data() }); pan != nil {
+				continue
+			}
+			c.Eval(1)
+			c.Count("kept", "undefined-data-rechecked", 1)
+			if !bytes.Equal(d, ku.body) {
+				c.Violation("C16/undefined-data-changed-later", fmt.Sprintf("an Undefined read from a type-0 frame with body %s reports Data() %s after other frames were read", hexClip(ku.body, 24), hexClip(d, 24)), map[string]interface{}{"first_byte": fmt.Sprintf("%#02x", first)})
+				return
+			}
+		}
 		for _, kp := range keptList {
 			out, _, werr, pan := libEncode(kp.p)
 			c.Eval(1)
@@ -146,6 +166,9 @@ func (c16) Run(c *run.Ctx, phase, idx int) {
 		case *mq.Undefined:
 			if !bytes.Equal(p.Data(), body) {
 				c.Violation("C16/undefined-data", fmt.Sprintf("Undefined.Data() has %d bytes (%s), the frame body has %d (%s)", len(p.Data()), hexClip(p.Data(), 24), len(body), hexClip(body, 24)), det())
+			}
+			if len(keptUndefs) < 48 && len(body) > 0 && len(body) <= 4096 {
+				keptUndefs = append(keptUndefs, keptUndef{p, append([]byte(nil), body...)})
 			}
 			// "the decoded packet keeps the lower four bits": the same body
 			// behind another flag nibble must give a packet that can be told
